@@ -370,13 +370,19 @@ func newCmd_SplitCar() *cli.Command {
 				if err != nil {
 					return fmt.Errorf("failed to calculate commP: %w", err)
 				}
+				// c.fileSize does not include the subset (and epoch) node appended to the piece:
+				// report the size of the file as written.
+				fi, err := os.Stat(filepath.Join(outputDir, c.name))
+				if err != nil {
+					return fmt.Errorf("failed to stat car file: %w", err)
+				}
 
 				err = w.Write([]string{
 					c.name,
 					commP.String(),
 					c.payloadCid.String(),
 					strconv.FormatUint(paddedPieceSize, 10),
-					strconv.FormatUint(c.fileSize, 10),
+					strconv.FormatUint(uint64(fi.Size()), 10),
 				})
 				if err != nil {
 					return fmt.Errorf("failed to write metatadata csv: %w", err)
